@@ -6,13 +6,11 @@ The stream is a list of bits in write order (least significant bit of each item 
 `BitWriteStreamT::write` lays down in the buffer (proved in `Props/C18`).
 -/
 import Hfsm.Model.Tree
+import Hfsm.Model.ShapeInfo
 
 namespace Hfsm
 
-/-- `bitContain` (shared/utility.hpp). -/
-def bitContain (v : Nat) : Nat :=
-  if v ≤ 1 then 0 else if v ≤ 2 then 1 else if v ≤ 4 then 2 else if v ≤ 8 then 3
-  else if v ≤ 16 then 4 else if v ≤ 32 then 5 else if v ≤ 64 then 6 else if v ≤ 128 then 7 else 8
+-- `bitContain` (shared/utility.hpp) is `Hfsm.bitContain` of Model/ShapeInfo.lean
 
 /-- the `w` low bits of `v`, least significant first (`stream.write<w>(v)`) -/
 def bitsOf : Nat → Nat → List Bool
